@@ -1,1 +1,120 @@
-From CV Require Import Model.Codec.
+(* C04 - Data type codec is the exact CiA 301 representation and never silently wraps.
+   Statements only; every proof is [exact] of a lemma in Proofs/Codec_proofs.v.
+   Model: Model/Codec.v (ODVariable.encode_raw/decode_raw, struct packers, IntegerN/UnsignedN),
+   tables: Gen/Tables.v regenerated from /repo on every run. *)
+From Coq Require Import ZArith List Bool.
+From CV Require Import Base.Val Base.Bytes Base.Tys Gen.Tables Model.Codec Proofs.Codec_proofs.
+Import ListNotations.
+Open Scope Z_scope.
+
+(* The regenerated STRUCT_TYPES table assigns every CiA 301 integer type number its
+   signedness and width. *)
+Theorem C04_types_are_cia301 : forall t s w, In (t, (s, w)) cia301_int_types ->
+  exists p, zassoc t STRUCT_TYPES = Some p /\ int_packer p = Some (s, w).
+Proof. exact types_are_cia301. Qed.
+
+(* In-range value: exactly width/8 bytes, the little-endian two's-complement representation
+   (le_encode n v lists the n low-order bytes of v; for negative v that is two's complement). *)
+Theorem C04_encode_exact : forall t p s w v,
+  zassoc t STRUCT_TYPES = Some p -> int_packer p = Some (s, w) -> in_range s w v = true ->
+  encode_raw (Some t) (PInt v) = Ok (le_encode (Z.to_nat (w / 8)) v).
+Proof. exact encode_exact. Qed.
+
+Theorem C04_encoded_shape : forall t p s w v bs,
+  zassoc t STRUCT_TYPES = Some p -> int_packer p = Some (s, w) ->
+  encode_raw (Some t) (PInt v) = Ok bs ->
+  zlen bs = w / 8 /\ bytes_ok bs /\ le_decode bs = v mod 2 ^ w /\ in_range s w v = true.
+Proof. exact encode_length. Qed.
+
+(* decoding those bytes returns the value *)
+Theorem C04_decode_encode : forall t p s w v,
+  zassoc t STRUCT_TYPES = Some p -> int_packer p = Some (s, w) -> in_range s w v = true ->
+  decode_raw (Some t) (le_encode (Z.to_nat (w / 8)) v) = Ok (PInt v).
+Proof. exact decode_encode. Qed.
+
+(* any byte pattern of the right length decodes to an in-range value that re-encodes to the pattern *)
+Theorem C04_encode_decode : forall t p s w bs,
+  zassoc t STRUCT_TYPES = Some p -> int_packer p = Some (s, w) -> bytes_ok bs -> zlen bs = w / 8 ->
+  exists v, decode_raw (Some t) bs = Ok (PInt v) /\ in_range s w v = true /\
+            encode_raw (Some t) (PInt v) = Ok bs.
+Proof. exact encode_decode. Qed.
+
+(* out of range: rejected, never wrapped *)
+Theorem C04_encode_rejects : forall t p s w v,
+  zassoc t STRUCT_TYPES = Some p -> int_packer p = Some (s, w) -> in_range s w v = false ->
+  encode_raw (Some t) (PInt v) = Err E_VALUE.
+Proof. exact encode_rejects. Qed.
+
+(* wrong length: never a number *)
+Theorem C04_decode_rejects : forall t p s w bs,
+  zassoc t STRUCT_TYPES = Some p -> int_packer p = Some (s, w) -> zlen bs <> w / 8 ->
+  exists k, decode_raw (Some t) bs = Err k.
+Proof. exact decode_rejects. Qed.
+
+Theorem C04_bool_codec : forall b : bool,
+  zassoc dt_BOOLEAN STRUCT_TYPES = Some PBool ->
+  encode_raw (Some dt_BOOLEAN) (PInt (if b then 1 else 0)) = Ok [if b then 1 else 0] /\
+  decode_raw (Some dt_BOOLEAN) [if b then 1 else 0] = Ok (PInt (if b then 1 else 0)).
+Proof. exact bool_codec. Qed.
+
+Theorem C04_bool_decode_rejects : forall bs,
+  zassoc dt_BOOLEAN STRUCT_TYPES = Some PBool -> zlen bs <> 1 ->
+  decode_raw (Some dt_BOOLEAN) bs = Err E_OD.
+Proof. exact bool_decode_rejects. Qed.
+
+(* REAL32 / REAL64 on IEEE-754 bit patterns *)
+Theorem C04_real_codec : forall t w bits,
+  zassoc t STRUCT_TYPES = Some (PReal w) -> 0 <= bits < 2 ^ w ->
+  encode_raw (Some t) (PFloat bits) = Ok (le_encode (Z.to_nat (w / 8)) bits) /\
+  decode_raw (Some t) (le_encode (Z.to_nat (w / 8)) bits) = Ok (PFloat bits).
+Proof. exact real_codec. Qed.
+
+Theorem C04_real_decode_rejects : forall t w bs,
+  zassoc t STRUCT_TYPES = Some (PReal w) -> zlen bs <> w / 8 ->
+  decode_raw (Some t) bs = Err E_OD.
+Proof. exact real_decode_rejects. Qed.
+
+(* text: the NUL hypothesis is forced by rstrip("\x00") in decode_raw *)
+Theorem C04_ascii_roundtrip : forall s, forallb is_ascii s = true -> last s 1 <> 0 ->
+  encode_raw (Some dt_VISIBLE_STRING) (PStr s) = Ok s /\
+  decode_raw (Some dt_VISIBLE_STRING) s = Ok (PStr s).
+Proof. exact ascii_roundtrip. Qed.
+
+Theorem C04_ascii_rejects : forall s, forallb is_ascii s = false ->
+  encode_raw (Some dt_VISIBLE_STRING) (PStr s) = Err E_VALUE.
+Proof. exact ascii_rejects. Qed.
+
+Theorem C04_utf16_roundtrip : forall s, forallb is_scalar s = true -> last s 1 <> 0 ->
+  exists bs, encode_raw (Some dt_UNICODE_STRING) (PStr s) = Ok bs /\
+             decode_raw (Some dt_UNICODE_STRING) bs = Ok (PStr s).
+Proof. exact utf16_roundtrip. Qed.
+
+(* ---- non-vacuity: the hypotheses are met by concrete non-trivial inputs ---- *)
+Example C04_nv_int24 : zassoc 16 STRUCT_TYPES = Some (PIntN 24) /\ int_packer (PIntN 24) = Some (true, 24) /\
+  in_range true 24 (-8388608) = true /\ in_range true 24 8388608 = false /\
+  encode_raw (Some 16) (PInt (-2)) = Ok [254; 255; 255].
+Proof. vm_compute. repeat split; reflexivity. Qed.
+
+Example C04_nv_tables : zassoc dt_BOOLEAN STRUCT_TYPES = Some PBool /\
+  zassoc dt_REAL32 STRUCT_TYPES = Some (PReal 32) /\ zassoc dt_REAL64 STRUCT_TYPES = Some (PReal 64) /\
+  length cia301_int_types = 16%nat.
+Proof. vm_compute. repeat split; reflexivity. Qed.
+
+Example C04_nv_text : forallb is_scalar [72; 233; 8364; 128512] = true /\ last [72; 233; 8364; 128512] 1 <> 0 /\
+  encode_raw (Some dt_UNICODE_STRING) (PStr [72; 128512]) = Ok [72; 0; 61; 216; 0; 222].
+Proof. vm_compute. repeat split; try reflexivity. discriminate. Qed.
+
+Print Assumptions C04_types_are_cia301.
+Print Assumptions C04_encode_exact.
+Print Assumptions C04_encoded_shape.
+Print Assumptions C04_decode_encode.
+Print Assumptions C04_encode_decode.
+Print Assumptions C04_encode_rejects.
+Print Assumptions C04_decode_rejects.
+Print Assumptions C04_bool_codec.
+Print Assumptions C04_bool_decode_rejects.
+Print Assumptions C04_real_codec.
+Print Assumptions C04_real_decode_rejects.
+Print Assumptions C04_ascii_roundtrip.
+Print Assumptions C04_ascii_rejects.
+Print Assumptions C04_utf16_roundtrip.
